@@ -140,11 +140,12 @@ def r1_wiring(P, rep, ctx):
     do = P.func(f"{C}.detect_field_overrides")
     d = F(ctx, do)
     sc = do.params[0]
-    rets = [d.xe(v) for _, v in d.returns() if v is not None]
+    rets = [v for _, v in d.returns() if v is not None]
     okd = len(rets) == 1
     if okd:
-        m = MM.match(f"set(cast(Any, {sc}._base_typehints).keys()).intersection(__n)", rets[0]) or MM.match(f"set(cast(Any, {sc}._base_typehints)).intersection(__n)", rets[0]) or MM.match(f"set(cast(Any, {sc}._base_typehints).keys()) & __n", rets[0])
-        okd = m is not None and isinstance(m["__n"], ast.SetComp) and len(m["__n"].generators) == 1 and norm(m["__n"].generators[0].iter) == f"get_annotations({sc}).items()" and len(m["__n"].generators[0].ifs) == 1 and MM.match(f"is_pub_instance_field({sc}, __k, __h)", m["__n"].generators[0].ifs[0]) is not None
+        sb = d.set_build(rets[0])
+        BH = f"cast(Any, {sc}._base_typehints)"
+        okd = sb is not None and sb["src"] == f"get_annotations({sc}).items()" and MM.equivalent(sb["kept"], f"is_pub_instance_field({sc}, V0, V1) and V0 in {BH}")
     rep.check(okd, "C13.R1", do.qual, "overrides = own annotations that also occur in the bases' hints", do.loc(), construct="detect_field_overrides", message="detect_field_overrides changed shape")
 
 
